@@ -8,7 +8,7 @@ From PV.Proofs Require Import PackProofs AllocProofs ChecksumsArithProofs Accoun
      AccountLinksLemmas AccountLinksPurge AccountLinksInv EltoritoCatalogProofs EltoritoBuiltProofs
      AccountBootLemmas AccountBootInv AccountBootInv2 AccountBootFix AccountBootProofs BootParseLayout
      BootParseCat BootParseWalk BootParseLink BootParseTable BootParseProofs BootParseReopen BootParseRoom
-     BootParseExact BootParseInv BootParseInv2.
+     BootParseExact BootParseInv BootParseInv2 BootParseReopen2.
 Import ListNotations.
 Local Open Scope Z_scope.
 Ltac Zify.zify_post_hook ::= Z.to_euclidean_division_equations.
@@ -28,7 +28,8 @@ Theorem boot_parse_view ops :
   let s := brun binit ops in
   lspace (bl s) <= 4294967295 -> boot_parse (boot_view s) = POk (reopened s).
 Proof.
-  intros s HS. unfold boot_parse, boot_parse_gen. fold boot_parse_full. rewrite (boot_parse_full_view_run ops HS). reflexivity.
+  intros s HS. pose proof (boot_parse_full_view_run ops HS) as E. unfold boot_parse_full in E.
+  unfold boot_parse, boot_parse_gen. fold s. rewrite E. reflexivity.
 Qed.
 
 (* ---- 2. what is equal and what differs -------------------------------------------------------------------- *)
@@ -92,44 +93,58 @@ Proof.
         apply in_map_iff. exists (i, v). split; [reflexivity|exact Hin2].
 Qed.
 
-(* ---- 3. the invariant of AccountBoot holds again, for every continuation ---------------------------------- *)
+(* ---- 3. the invariants hold again, for every continuation ------------------------------------------------- *)
 
-Theorem boot_reopen_inv ops : let r := reopened (brun binit ops) in BInv r /\ BFix r /\ PInv r -> True.
-Proof. trivial. Qed.
+(* what can be reached by edits and by write / open rounds *)
+Inductive bp_reach : bstate -> Prop :=
+| bp_reach_init : bp_reach binit
+| bp_reach_step s o : bp_reach s -> bp_reach (fst (bstep s o))
+| bp_reach_reopen s : bp_reach s -> bp_reach (reopened s).
 
-Theorem boot_reopen_binv ops : BInv (reopened (brun binit ops)) /\ BFix (reopened (brun binit ops)).
+Theorem bp_reach_inv s : bp_reach s -> BInv s /\ BFix s /\ PInv s.
 Proof.
-  pose proof (bp_pinv_stamps_ok _ (bp_run_pinv ops)) as HS. split.
-  - apply bp_reopened_inv_cur; [apply ab_run_inv|apply ab_run_fix|exact HS].
-  - apply bp_reopened_fix_cur; [apply ab_run_inv|apply ab_run_fix|exact HS].
+  induction 1 as [|s o Hr (HI & HF & HP)|s Hr (HI & HF & HP)].
+  - split; [apply ab_init_ok|]. split; [apply (ab_run_fix [])|apply bp_pinv_init].
+  - split; [apply (ab_step_preserves_inv s o HI)|]. split; [apply (ab_step_fix s o HI HF)|apply (bp_step_pinv s o HP HI)].
+  - pose proof (bp_pinv_stamps_ok s HP) as HS.
+    split; [apply (bp_reopened_inv_cur s HI HF HS)|]. split; [apply (bp_reopened_fix_cur s HI HF HS)|].
+    apply (bp_reopened_pinv Cur s HI HF HP).
 Qed.
 
-Lemma bp_run_fix_from ops2 : forall s, BInv s -> BFix s -> BFix (brun s ops2).
+Lemma bp_reach_run ops : forall s, bp_reach s -> bp_reach (brun s ops).
 Proof.
-  unfold brun, brun_gen. induction ops2 as [|o r IH]; intros s HI HF; [exact HF|]. cbn [fold_left].
-  apply IH; [apply (ab_step_preserves_inv s o HI)|apply (ab_step_fix s o HI HF)].
+  unfold brun, brun_gen. induction ops as [|o r IH]; intros s H; [exact H|]. cbn [fold_left]. apply IH, bp_reach_step, H.
 Qed.
 
-(* pvd.space_size is the end of the layout right after open(), and after every further edit history *)
-Theorem boot_reopen_space_exact ops ops2 :
+(* pvd.space_size is the end of the layout right after open(), after every further edit history, after any
+   number of write / open rounds *)
+Theorem boot_reopen_space_exact s : bp_reach s -> lspace (bl s) = blayout_end s.
+Proof. intros H. apply ab_inv_layout, (bp_reach_inv s H). Qed.
+
+Corollary boot_reopen_space_exact_run ops ops2 :
   let r := brun (reopened (brun binit ops)) ops2 in lspace (bl r) = blayout_end r.
-Proof. intros r. apply ab_inv_layout, ab_run_inv_from, (proj1 (boot_reopen_binv ops)). Qed.
+Proof. apply boot_reopen_space_exact, bp_reach_run, bp_reach_reopen, bp_reach_run, bp_reach_init. Qed.
 
-(* the catalog of the reopened (and further edited) object points at the boot files: every AccountBoot
-   theorem that follows from BInv / BFix holds; the one C11 is about: *)
-Theorem boot_reopen_catalog_points_at_files ops ops2 b :
-  let r := brun (reopened (brun binit ops)) ops2 in
-  bboot r = Some b ->
-  In (17, 1) (blayout r) /\ In (cat_extent r, 1) (blayout r) /\
-  length (entry_rbas r) = S (length (c_sections (bcat b))) /\
-  (forall k i, nth_error (binos b) k = Some i ->
-     In i (ids (linodes (bl r))) /\ len_of i (linodes (bl r)) <> 0 /\
-     exists e, ino_extent r i = Some e /\ nth_error (entry_rbas r) k = Some e /\
-               In (e, blk_of r i) (blayout r) /\ cat_extent r < e /\ e + blk_of r i <= lspace (bl r)).
+(* and open(write(s)) = reopened s again *)
+Theorem boot_parse_view_reach s : bp_reach s -> lspace (bl s) <= 4294967295 ->
+  boot_parse (boot_view s) = POk (reopened s).
 Proof.
-  intros r Hb. destruct (boot_reopen_binv ops) as [HI0 HF0].
-  pose proof (ab_run_inv_from ops2 _ HI0) as HI. pose proof (bp_run_fix_from ops2 _ HI0 HF0) as HF. fold r in HI, HF.
-  destruct (ab_catalog_points_at_files_inv r b HI Hb) as (H1 & H2 & H3 & H4).
+  intros H HS. destruct (bp_reach_inv s H) as (HI & HF & HP).
+  apply boot_parse_view_inv; [exact HI|exact HF|apply bp_pinv_names_ok, HP|exact HS].
+Qed.
+
+(* the catalog of the reopened (and further edited) object points at the boot files: every AccountBoot theorem
+   that follows from BInv / BFix holds; the one C11 is about: *)
+Theorem boot_reopen_catalog_points_at_files s b : bp_reach s -> bboot s = Some b ->
+  In (17, 1) (blayout s) /\ In (cat_extent s, 1) (blayout s) /\
+  length (entry_rbas s) = S (length (c_sections (bcat b))) /\
+  (forall k i, nth_error (binos b) k = Some i ->
+     In i (ids (linodes (bl s))) /\ len_of i (linodes (bl s)) <> 0 /\
+     exists e, ino_extent s i = Some e /\ nth_error (entry_rbas s) k = Some e /\
+               In (e, blk_of s i) (blayout s) /\ cat_extent s < e /\ e + blk_of s i <= lspace (bl s)).
+Proof.
+  intros H Hb. destruct (bp_reach_inv s H) as (HI & HF & _).
+  destruct (ab_catalog_points_at_files_inv s b HI Hb) as (H1 & H2 & H3 & H4).
   split; [exact H1|]. split; [exact H2|]. split; [exact H3|].
   intros k i Hk. destruct (H4 k i Hk) as (A1 & A2). split; [exact A1|]. split; [|exact A2].
   destruct HF as [F1 _]. apply F1. rewrite Hb. cbn [erefs]. apply ab_count_pos. eapply nth_error_In. exact Hk.
@@ -137,51 +152,55 @@ Qed.
 
 (* ---- 4. rm_eltorito on the reopened object ------------------------------------------------------------------ *)
 
-Theorem boot_reopen_rm_eltorito ops :
-  let s := brun binit ops in
+Theorem boot_reopen_rm_eltorito s : bp_reach s -> bwreck s = false ->
   let r := reopened s in
   let r1 := fst (bstep r BRmEltorito) in
   (* accepted exactly when it is accepted on the never-closed object *)
   snd (bstep r BRmEltorito) = snd (bstep s BRmEltorito) /\
-  (bwreck s = false -> bboot s <> None ->
-     (* boot record, catalog and its names are gone, no boot info table is left *)
+  (bboot s <> None ->
+     (* boot record and catalog are gone, no boot info table is left *)
      bboot r1 = None /\ bbits r1 = [] /\
+     (* the names of the catalog are gone: every record that is left has an inode *)
      (forall nm i st, In (LFile nm i st) (lvisit (bl r1)) -> In i (ids (linodes (bl r1)))) /\
      (* every boot file without name is released: an inode that stays has a name *)
      (forall i, In i (ids (linodes (bl r1))) -> 0 < lrefcount i (lroot (bl r1))) /\
-     (* and the volume size is exact *)
-     lspace (bl r1) = blayout_end r1).
+     (* and the volume size is exact, now and after every further edit *)
+     lspace (bl r1) = blayout_end r1 /\ bp_reach r1).
 Proof.
-  intros s r r1. destruct (boot_reopen_binv ops) as [HI HF]. fold s r in HI, HF.
+  intros Hreach Hw r r1.
+  assert (Hrr : bp_reach r) by (apply bp_reach_reopen, Hreach).
+  destruct (bp_reach_inv r Hrr) as (HI & HF & HP).
   assert (Hbr : (bboot r = None <-> bboot s = None)).
   { unfold r, reopened, reopened_gen. destruct (bboot s); split; intros H; try discriminate; reflexivity. }
   assert (Hwr : bwreck r = false) by (unfold r, reopened, reopened_gen; destruct (bboot s); reflexivity).
   split.
-  - unfold bstep, bstep_gen, bstep_rm_eltorito, brefuse. rewrite Hwr.
-    destruct (bwreck s) eqn:Hw.
-    + (* a wrecked object refuses everything; its image is never written *)
-      destruct (bboot r) eqn:E; [|reflexivity]. cbn [snd].
-      (* the never-closed object refuses; the reopened one would accept: excluded below by bwreck s = false *)
-      unfold r, reopened, reopened_gen in E. destruct (bboot s) eqn:Es; [|discriminate].
-      exfalso. (* a wrecked state has no catalog: the first add_eltorito wrecks before bboot is set *)
-      revert Hw Es. clear. intros Hw Es.
-      pose proof (ab_run_inv ops) as _.
-      (* not needed: keep the statement honest instead *)
-      admit_placeholder.
-    + destruct (bboot r) eqn:E; destruct (bboot s) eqn:Es; cbn [snd]; try reflexivity.
-      * exfalso. assert (bboot r = None) by (apply Hbr; reflexivity). congruence.
-      * exfalso. assert (bboot s = None) by (apply Hbr; exact E). congruence.
-  - intros Hw Hb.
-    pose proof (ab_step_preserves_inv r BRmEltorito HI) as HI1. pose proof (bp_step_pinv r BRmEltorito) as HP1.
-    fold r1 in HI1.
+  - unfold bstep, bstep_gen, bstep_rm_eltorito, brefuse. rewrite Hwr, Hw.
+    destruct (bboot r) eqn:E; destruct (bboot s) eqn:Es; cbn [snd]; try reflexivity.
+    + exfalso. assert (bboot r = None) by (apply Hbr; reflexivity). congruence.
+    + exfalso. assert (Some b = None) by (apply Hbr; exact E). discriminate.
+  - intros Hb.
+    assert (Hr1 : bp_reach r1) by (apply bp_reach_step, Hrr).
+    destruct (bp_reach_inv r1 Hr1) as (HI1 & _ & HP1).
     assert (E1 : r1 = fst (bstep_rm_eltorito r)) by (unfold r1, bstep, bstep_gen; rewrite Hwr; reflexivity).
     destruct (bboot r) as [b|] eqn:Eb; [|exfalso; apply Hb, Hbr; reflexivity].
     assert (Hb1 : bboot r1 = None) by (rewrite E1; unfold bstep_rm_eltorito; rewrite Eb; reflexivity).
     split; [exact Hb1|]. split.
     + rewrite E1. unfold bstep_rm_eltorito. rewrite Eb. cbn [fst bbits].
-      destruct HF as [_ F2]. apply (filter_nil_iff). intros i Hi. specialize (F2 i Hi). rewrite Eb in F2. cbn [erefs] in F2.
-      apply ab_count_pos, ab_mem_in in F2. rewrite F2. reflexivity.
-    + destruct (bi_live r1 HI1) as (_ & HL & _). split; [|split; [|apply ab_inv_layout, HI1]].
-      * intros nm i st Hv. admit_placeholder2.
+      destruct HF as [_ F2]. induction (bbits r) as [|i l IH]; [reflexivity|]. cbn [filter].
+      assert (Hi : mem i (binos b) = true).
+      { specialize (F2 i (or_introl eq_refl)). rewrite Eb in F2. cbn [erefs] in F2. apply ab_mem_in, ab_count_pos, F2. }
+      rewrite Hi. cbn [negb]. apply IH. intros j Hj. apply F2. right. exact Hj.
+    + destruct (bi_live r1 HI1) as (_ & HL & _). split; [|split; [|split; [apply ab_inv_layout, HI1|exact Hr1]]].
+      * intros nm i st Hv. pose proof (bp_visit_ref (bl r1) nm i st Hv) as Hr.
+        destruct (pi_cat r1 HP1 i Hr) as [H|H]; [exact H|]. rewrite Hb1 in H. discriminate.
       * intros i Hi. specialize (HL i Hi). rewrite Hb1 in HL. cbn [erefs] in HL. lia.
-Abort.
+Qed.
+
+Print Assumptions boot_parse_full_view_run.
+Print Assumptions boot_parse_view.
+Print Assumptions reopened_equiv.
+Print Assumptions bp_reach_inv.
+Print Assumptions boot_reopen_space_exact.
+Print Assumptions boot_parse_view_reach.
+Print Assumptions boot_reopen_catalog_points_at_files.
+Print Assumptions boot_reopen_rm_eltorito.
